@@ -18,12 +18,33 @@ type Program struct {
 	Patterns []string
 }
 
+// HostLibPath is the import path of the host package that generated programs may import.
+const HostLibPath = "progs/hostlib"
+
+// HostLibSource is the Go source of that package (the gc side); the scriggo side
+// supplies the same functions as a native package.
+const HostLibSource = `package hostlib
+
+func Send(ch chan int, v int) { ch <- v }
+
+func SendAll(ch chan int, vs ...int) {
+	for _, v := range vs {
+		ch <- v
+	}
+}
+
+func Add(a, b int) int { return a + b }
+
+func Label(s string, n int) string { return s + string(rune('a'+n%26)) }
+`
+
 type gen struct {
-	r     *rand.Rand
-	funcs []string
-	calls []string
-	pats  []string
-	n     int
+	usesHost bool
+	r        *rand.Rand
+	funcs    []string
+	calls    []string
+	pats     []string
+	n        int
 }
 
 func (g *gen) id(p string) string { g.n++; return fmt.Sprintf("%s%d", p, g.n) }
@@ -32,12 +53,15 @@ func (g *gen) id(p string) string { g.n++; return fmt.Sprintf("%s%d", p, g.n) }
 func Generate(r *rand.Rand) Program {
 	g := &gen{r: r}
 	np := 2 + r.Intn(4)
-	pats := []func(){g.pipeline, g.fanInOut, g.pingPong, g.semaphore, g.selectMerge, g.slots, g.closeBroadcast, g.mutexMap, g.generatorClosure, g.nestedSpawn}
+	pats := []func(){g.pipeline, g.fanInOut, g.pingPong, g.semaphore, g.selectMerge, g.slots, g.closeBroadcast, g.mutexMap, g.generatorClosure, g.nestedSpawn, g.nativeGo, g.closeSentinel, g.nativeGo}
 	for i := 0; i < np; i++ {
 		pats[r.Intn(len(pats))]()
 	}
 	var sb strings.Builder
 	sb.WriteString("package main\n\n")
+	if g.usesHost {
+		sb.WriteString("import \"" + HostLibPath + "\"\n\n")
+	}
 	for _, f := range g.funcs {
 		sb.WriteString(f)
 		sb.WriteString("\n\n")
@@ -216,4 +240,31 @@ func (g *gen) nestedSpawn() {
 	fmt.Fprintf(&b, "func %s() {\n\tvar node func(d, id int, out chan<- int)\n\tnode = func(d, id int, out chan<- int) {\n\t\tif d == 0 {\n\t\t\tout <- id\n\t\t\treturn\n\t\t}\n\t\tsub := make(chan int)\n\t\tfor k := 0; k < %d; k++ {\n\t\t\tgo node(d-1, id*%d+k, sub)\n\t\t}\n\t\ts := 0\n\t\tfor k := 0; k < %d; k++ {\n\t\t\ts += <-sub\n\t\t}\n\t\tout <- s + id\n\t}\n", name, fan, fan, fan)
 	fmt.Fprintf(&b, "\tout := make(chan int)\n\tgo node(%d, 1, out)\n\tprintln(%q, <-out)\n}", depth, name)
 	g.add("spawn-tree", name, b.String())
+}
+
+// nativeGo: go statements on native (host) functions with arguments, several in
+// flight at once, plus synchronous calls of the same natives in between.
+func (g *gen) nativeGo() {
+	g.usesHost = true
+	name := g.id("natgo")
+	k := 2 + g.r.Intn(12)
+	var b strings.Builder
+	fmt.Fprintf(&b, "func %s() {\n\tch := make(chan int%s)\n", name, g.buf())
+	fmt.Fprintf(&b, "\tfor i := 0; i < %d; i++ {\n\t\tgo hostlib.Send(ch, i*i+1)\n\t\tif i%%3 == 0 {\n\t\t\tgo hostlib.SendAll(ch, i, i+1)\n\t\t}\n\t}\n", k)
+	extra := 2 * ((k + 2) / 3)
+	fmt.Fprintf(&b, "\tsum, x, lab := 0, 0, \"\"\n\tfor i := 0; i < %d; i++ {\n\t\tv := <-ch\n\t\tsum = hostlib.Add(sum, v)\n\t\tx ^= v\n\t\tif i < 3 {\n\t\t\tlab = hostlib.Label(lab, i)\n\t\t}\n\t}\n\tprintln(%q, sum, x, lab)\n}", k+extra, name)
+	g.add("native-go", name, b.String())
+}
+
+// closeSentinel: a select receive case on a channel that gets closed; the
+// received zero value is used (close as a zero sentinel).
+func (g *gen) closeSentinel() {
+	name := g.id("sentinel")
+	k := 2 + g.r.Intn(9)
+	var b strings.Builder
+	fmt.Fprintf(&b, "func %s() {\n\tdata := make(chan int)\n\tquit := make(chan int)\n\tnames := make(chan string)\n", name)
+	fmt.Fprintf(&b, "\tgo func() {\n\t\tfor i := 1; i <= %d; i++ {\n\t\t\tdata <- i * 7\n\t\t\tnames <- \"n\"\n\t\t}\n\t\tclose(quit)\n\t}()\n", k)
+	fmt.Fprintf(&b, "\tsum, done, s := 0, false, \"\"\n\tfor !done {\n\t\tselect {\n\t\tcase v := <-data:\n\t\t\tsum += v\n\t\tcase n := <-names:\n\t\t\ts += n\n\t\tcase code := <-quit:\n\t\t\tsum += code * 1000\n\t\t\tdone = true\n\t\t}\n\t}\n")
+	fmt.Fprintf(&b, "\tcode, ok := <-quit\n\tprintln(%q, sum, len(s), code, ok)\n}", name)
+	g.add("close-sentinel", name, b.String())
 }
